@@ -63,7 +63,12 @@ def real_detect(g, hist, a, tw, roll):
             ps = list(a.parameters.items())
             _SHUF.shuffle(ps)
             a = Action(a.type, dict(ps))
-        return bool(g.stochastic_with_threshold(a, hd, tw)), None
+        before = [dict(d, parameters=dict(d["parameters"])) for d in hd]
+        r = bool(g.stochastic_with_threshold(a, hd, tw))
+        if hd != before:
+            # the caller (the coordinator) passes the live list of the episode's recorded actions
+            return None, f"the decision function changed the history it was given: {len(before)} -> {len(hd)} entries"
+        return r, None
     except Exception as e:
         return None, repr(e)
 
@@ -119,7 +124,7 @@ def main(tier):
                 evals += 1
                 r, err = real_detect(g, h, a, tw, 0.0)
                 if err is not None:
-                    V.fail("raises:" + a.type.value, f"stochastic_with_threshold raised {err}", {"hist": [mact(x) for x in h], "act": mact(a), "tw": tw, "roll": 0.0})
+                    V.fail(("history-mutated:" if "changed the history" in err else "raises:") + a.type.value, f"stochastic_with_threshold: {err}", {"hist": [mact(x) for x in h], "act": mact(a), "tw": tw, "roll": 0.0})
                     continue
                 if not m["full"]:
                     dist["window_not_full"] += 1
